@@ -1,6 +1,7 @@
 package checks
 
 import (
+	"sync"
 	"encoding/json"
 	"fmt"
 	"math/big"
@@ -40,13 +41,17 @@ func init() {
 	}
 }
 
-var fieldCache = map[string]*ref.Field{}
+var fieldCache sync.Map
 
 func fieldFor(p string) *ref.Field {
 	if p == "" || p == ref.R.String() {
 		return ref.BN
 	}
-	return ref.NewField(bigs(p))
+	if f, ok := fieldCache.Load(p); ok {
+		return f.(*ref.Field)
+	}
+	f, _ := fieldCache.LoadOrStore(p, ref.NewField(bigs(p)))
+	return f.(*ref.Field)
 }
 
 var tinyPos2, tinyPos1 *r1csmc.Sys[uint64, r1csmc.Small]
